@@ -147,6 +147,8 @@ class TcpSigner(threading.Thread):
 
 def expected_reply(dev, req):
     c = req["command"]
+    if c == "version":
+        return {"errorcode": 0, "version": 5}
     if c == "getPubKey":
         return {"errorcode": 0, "pubKey": dev.dev.pubkeys[gen.path_binary(req["keyId"])].hex()}
     if c == "sign":
@@ -157,7 +159,7 @@ def expected_reply(dev, req):
     return None
 
 
-def one_round(rng, nclients, delay, seq, fault=False, kind="ledger", v1=False):
+def one_round(rng, nclients, delay, seq, fault=False, kind="ledger", v1=False, fatal=False):
     dev = TaggedDevice(rng, delay)
     world = env.World(device=dev)
     dev.world = world
@@ -228,7 +230,7 @@ def one_round(rng, nclients, delay, seq, fault=False, kind="ledger", v1=False):
     reqs = []
     hdr = gen.random_header(rng, 19)
     for i in range(nclients):
-        k = rng.randrange(5)
+        k = rng.randrange(8)
         if v1:
             # the legacy protocol knows getPubKey and sign only
             if k % 2:
@@ -245,9 +247,21 @@ def one_round(rng, nclients, delay, seq, fault=False, kind="ledger", v1=False):
             reqs.append({"command": "blockchainState", "version": 5})
         elif k == 3:
             reqs.append({"command": "signerHeartbeat", "version": 5, "udValue": "%032x" % (i + 1)})
-        else:
+        elif k == 4:
             reqs.append({"command": "advanceBlockchain", "version": 5, "blocks": [hdr.hex()],
                          "brothers": [[]]})
+        elif k == 5:
+            # requests that need no device exchange at all are clients like any other
+            reqs.append({"command": "version"})
+        elif k == 6:
+            reqs.append({"command": "blockchainParameters", "version": 5})
+        else:
+            reqs.append({"command": "updateAncestorBlock", "version": 5, "blocks": [hdr.hex()]})
+    if fatal:
+        # one of the clients meets an answer that takes the manager down (a status word outside the
+        # firmware's range) while the others are queued behind it / arrive meanwhile
+        reqs[0] = {"command": "getPubKey", "version": 5 if not v1 else 1, "keyId": gen.PATHS[0]}
+        dev.dev.inject[(0x04, "*")] = 0x6F01
     if fault:
         # one earlier request loses the link in the middle of its exchanges
         pre = rng.choice([{"command": "blockchainState", "version": 5},
@@ -323,8 +337,9 @@ def run(ctx):
            "samples": [], "distribution": {"clients": {}, "apdus": 0}, "corr_errors": [], "notes": []}
     for r in range(rounds):
         n = rng.randint(2, 16)
+        fatal = (r % 6 == 3)
         dev, reqs, replies = one_round(rng, n, 0.002 if r % 2 else 0.0005, r, fault=(r % 3 == 2),
-                                       v1=(r % 5 == 4 and r % 3 != 2),
+                                       v1=(r % 5 == 4 and r % 3 != 2), fatal=fatal,
                                        kind=("tcp-real" if r == 1 or (ctx["tier"] == "thorough" and r % 40 == 1)
                                              else "tcp" if r % 4 == 3 else "ledger"))
         res["evaluations"] += 1
@@ -337,12 +352,20 @@ def run(ctx):
             res["violations"].append({"key": "C12:interleaved", "what": "APDUs of different requests "
                                       "interleave on the device", "tags": [str(t) for t, _ in log][:60]})
         untagged = [a.hex() for t_, a in dev.log if t_ is None][4:]
+        res["distribution"]["fatal_rounds"] = res["distribution"].get("fatal_rounds", 0) + (1 if fatal else 0)
+        victim_used = False
         for i, (rq, rp) in enumerate(zip(reqs, replies)):
             if not isinstance(rp, bytes) or rp.count(b"\n") != 1:
+                if fatal:
+                    continue         # the manager went down: clients behind the fatal request get nothing
                 res["violations"].append({"key": "C12:no-reply", "what": "client %d got %r" % (i, rp)})
                 continue
             exp = expected_reply(dev, rq)
             got = json.loads(rp)
+            if fatal and rq["command"] == "getPubKey" and got != exp and not victim_used and \
+                    got.get("errorcode") not in (0, 1):
+                victim_used = True   # the one request that met the fatal answer
+                continue
             if exp is not None and got != exp:
                 res["violations"].append({"key": "C12:wrong-reply", "what": "client %d received a reply that "
                                           "is not the reply to its own request" % i, "request": rq, "got": got})
